@@ -1197,7 +1197,7 @@ CONTRACTS[f"{PP}.process_glyph_names"].runtime = Runtime(
 
 
 # =====================================================================================================
-# Frame variants (all flavours, no precondition): what the glyph-name step may touch.
+# Frame variants (all flavours; the typestate `pristine` is the only precondition): what the glyph-name step may touch, and the decision table.
 # The functional clauses above are proved for fonts without a decompiled CFF table only (the computed-key dict
 # comprehension of rename_glyphs' CFF branch derails the solvers, notes/C11.md).  These variants execute the SAME bodies,
 # CFF branch included, for their safety obligations (no KeyError / IndexError / AttributeError) and their frame: only the
@@ -1205,7 +1205,7 @@ CONTRACTS[f"{PP}.process_glyph_names"].runtime = Runtime(
 # everything else reachable from the font, is left alone.  (C12 composes `process` from this: the name step calls none of
 # the CFF libraries and keeps the CFF flavour.)
 _CFF_NAME_FIELDS = ["PPTopDict.charset", "PPCharStrings.charStrings"]
-_RENAME_FRAME = ["PPFont.glyphOrder"] + _POST_FIELDS + _CFF_NAME_FIELDS
+_RENAME_FRAME = ["PPFont.glyphOrder", "PPPost.extraNames", "PPPost.mapping", "PPPost.has_extraNames", "PPPost.has_mapping"] + _CFF_NAME_FIELDS
 
 contract(
     f"{PP}.rename_glyphs",
@@ -1215,6 +1215,8 @@ contract(
     globals={"standardGlyphOrder": _STD_SYM},
     modifies=_RENAME_FRAME,
     merge_branches=False,
+    # the typestate only ("reload BEFORE renaming"): no condition on the flavour
+    requires=["otf.pristine"],
     ensures={"tables-kept": "iff('CFF ' in otf, old('CFF ' in otf)) and iff('CFF2' in otf, old('CFF2' in otf)) and iff('post' in otf, old('post' in otf))"},
     canaries={"unchanged": "otf.glyphOrder == old(otf.glyphOrder)"},
 )
@@ -1225,6 +1227,7 @@ contract(
     params={"self": Ref("PostProcessor")},
     calls={f"{PP}.rename_glyphs": f"{PP}.rename_glyphs#frame"},
     modifies=_RENAME_FRAME,
+    requires=["self.otf.pristine"],
     ensures={"same-font-object": "self.otf_id == old(self.otf_id)",
              "tables-kept": "iff('CFF ' in self.otf, old('CFF ' in self.otf)) and iff('CFF2' in self.otf, old('CFF2' in self.otf)) and iff('post' in self.otf, old('post' in self.otf))"},
     canaries={"nothing-renamed": "self.order == old(self.order)"},
@@ -1235,10 +1238,13 @@ contract(
     props=["C11", "C12"],
     params={"self": Ref("PostProcessor"), "useProductionNames": Opt(BOOL)},
     calls={f"{PP}._rename_glyphs_from_ufo": f"{PP}._rename_glyphs_from_ufo#frame"},
-    modifies=["PostProcessor.otf"] + _RENAME_FRAME,
+    modifies=sorted(set(["PostProcessor.otf"] + _RENAME_FRAME + _POST_FIELDS)),
     ensures={
         # whatever the switches say and whatever the flavour: the table set is the one at entry
         "same-tables": f"iff('CFF ' in self.otf, {_HAS_CFF0}) and iff('post' in self.otf, {_HAS_POST0}) and iff('CFF2' in self.otf, old('CFF2' in self.otf))",
+        # the decision table of the functional contract, as far as it does not speak about the new names — here for ALL flavours;
+        # "reload BEFORE rename" is the call-site obligation pre@callsite._rename_glyphs_from_ufo#frame (pristine), now also for 'CFF ' fonts
+        **{k: CONTRACTS[f"{PP}.process_glyph_names"].ensures[k] for k in ("keep-no-rename", "rename-on-reloaded-font", "post-2-when-kept", "drop-names", "drop-unsupported-cff")},
     },
     canaries={"never-reloads": "self.otf_id == old(self.otf_id)"},
 )
